@@ -331,6 +331,30 @@ def evaluate(case, env):
                         p2.close()
                     except Exception:
                         pass
+                if k is None and not out.violations:
+                    # recovery: after the crash the user goes on working - a session that forgets the history (so that
+                    # LESS is saved than the interrupted save had written) and closes normally must leave a readable
+                    # project too; whatever the crash left behind (temporary files) must not leak into the next save
+                    out.evals += 1
+                    p3 = None
+                    try:
+                        p3 = _open(sroot)
+                        p3.history.clear()
+                        p3.close()
+                        p3 = _open(sroot)
+                        obs3 = _observe(p3)
+                        if obs3[0] != empty_obs[0] and not type_exact_equal(obs3[0], empty_obs[0]):
+                            out.violation("C18:recovery:history_not_empty_after_clear", "state %r" % (sub,), sub)
+                        out.labels["recovery_session"] += 1
+                    except Exception as ex:
+                        out.violation("C18:recovery:next_session_unreadable:" + type(ex).__name__, "after crash state %r, a session that cleared the history and closed normally left: %r" % (sub, ex), sub)
+                    finally:
+                        if p3 is not None:
+                            p3.data_files.hooks[:] = []
+                            try:
+                                p3.close()
+                            except Exception:
+                                pass
     finally:
         if project is not None:
             try:
